@@ -58,6 +58,114 @@ func leanBool(b bool) string {
 	return "false"
 }
 
+// cursorWrite is one assignment to a cursor column inside the membership tables.
+type cursorWrite struct {
+	fn, field, rhs, kind, ctx string
+}
+
+// walkWrites collects the assignments to ReadSeq / DeletedToSeq / AckSeq under n together with
+// the stack of enclosing `if` conditions (an else branch contributes the negated condition).
+// kind = "max" when the innermost guard is `<rhs> > <lhs>`, else "assign".
+func walkWrites(fn string, n ast.Node, stack []string, out *[]cursorWrite) {
+	switch x := n.(type) {
+	case nil:
+		return
+	case *ast.BlockStmt:
+		for _, st := range x.List {
+			walkWrites(fn, st, stack, out)
+		}
+	case *ast.IfStmt:
+		c := exprText(x.Cond)
+		walkWrites(fn, x.Body, append(append([]string{}, stack...), c), out)
+		if x.Else != nil {
+			walkWrites(fn, x.Else, append(append([]string{}, stack...), "!("+c+")"), out)
+		}
+	case *ast.AssignStmt:
+		for i, l := range x.Lhs {
+			sel, ok := l.(*ast.SelectorExpr)
+			if !ok || i >= len(x.Rhs) {
+				continue
+			}
+			f := sel.Sel.Name
+			if f != "ReadSeq" && f != "DeletedToSeq" && f != "AckSeq" {
+				continue
+			}
+			lhs, rhs := exprText(l), exprText(x.Rhs[i])
+			kind, ctx := "assign", ""
+			if len(stack) > 0 && stack[len(stack)-1] == rhs+">"+lhs {
+				kind = "max"
+				if len(stack) > 1 {
+					ctx = stack[len(stack)-2]
+				}
+			} else if len(stack) > 0 {
+				ctx = stack[len(stack)-1]
+			}
+			*out = append(*out, cursorWrite{fn, lhs, rhs, kind, ctx})
+		}
+		for _, r := range x.Rhs {
+			walkWrites(fn, r, stack, out)
+		}
+	case *ast.ExprStmt:
+		walkWrites(fn, x.X, stack, out)
+	case *ast.ReturnStmt:
+		for _, r := range x.Results {
+			walkWrites(fn, r, stack, out)
+		}
+	case *ast.CallExpr:
+		for _, a := range x.Args {
+			walkWrites(fn, a, stack, out)
+		}
+	case *ast.FuncLit:
+		walkWrites(fn, x.Body, stack, out)
+	}
+}
+
+func fileWrites(f *ast.File) []cursorWrite {
+	var out []cursorWrite
+	for _, d := range f.Decls {
+		fd, ok := d.(*ast.FuncDecl)
+		if !ok || fd.Body == nil {
+			continue
+		}
+		name := fd.Name.Name
+		if fd.Recv != nil && len(fd.Recv.List) == 1 {
+			t := fd.Recv.List[0].Type
+			if st, ok := t.(*ast.StarExpr); ok {
+				t = st.X
+			}
+			name = exprText(t) + "." + name
+		}
+		if strings.HasPrefix(fd.Name.Name, "decode") {
+			continue
+		}
+		walkWrites(name, fd.Body, nil, &out)
+	}
+	return out
+}
+
+// returnsOf lists, in source order, `guard -> returned expression` for the top-level shape of a
+// reducer (nested ifs flattened with their condition stacks).
+func returnsOf(n ast.Node, stack []string, out *[]string) {
+	switch x := n.(type) {
+	case *ast.BlockStmt:
+		for _, st := range x.List {
+			returnsOf(st, stack, out)
+		}
+	case *ast.IfStmt:
+		c := exprText(x.Cond)
+		returnsOf(x.Body, append(append([]string{}, stack...), c), out)
+		if x.Else != nil {
+			returnsOf(x.Else, append(append([]string{}, stack...), "!("+c+")"), out)
+		}
+	case *ast.ReturnStmt:
+		var rs []string
+		for _, r := range x.Results {
+			rs = append(rs, exprText(r))
+		}
+		*out = append(*out, strings.Join(stack, " & ")+" => "+strings.Join(rs, ","))
+	}
+}
+
 func extractC16(repo string) (string, error) {
 	_, nodeFile, err := parseFile(repo, "pkg/cluster/node_meta.go")
 	if err != nil {
@@ -83,8 +191,51 @@ func extractC16(repo string) (string, error) {
 	if err != nil {
 		return "", err
 	}
+	_, ordFile, err := parseFile(repo, "pkg/db/meta/table_user_channel_membership.go")
+	if err != nil {
+		return "", err
+	}
+	_, cmdFile, err := parseFile(repo, "pkg/db/meta/table_user_cmd_channel_membership.go")
+	if err != nil {
+		return "", err
+	}
+	writes := append(fileWrites(ordFile), fileWrites(cmdFile)...)
+	var rets []string
+	for _, fn := range []struct {
+		f    *ast.File
+		name string
+	}{{ordFile, "resolveUserChannelMembership"}, {ordFile, "resolveEnsuredUserChannelMembership"}, {cmdFile, "resolveUserCMDChannelMembership"}} {
+		fd := findFunc(fn.f, fn.name)
+		if fd == nil {
+			return "", fmt.Errorf("%s not found", fn.name)
+		}
+		var rs []string
+		returnsOf(fd.Body, nil, &rs)
+		for _, r := range rs {
+			rets = append(rets, fn.name+": "+r)
+		}
+	}
 	var sb strings.Builder
 	sb.WriteString("namespace WK.Gen.C16\n\n")
+	sb.WriteString("/-- every assignment to a cursor column (ReadSeq, DeletedToSeq, AckSeq) in the two membership\n    table files: (function, lhs, rhs, \"max\" iff guarded by `rhs > lhs` else \"assign\", enclosing condition) -/\n")
+	sb.WriteString("def cursorWrites : List (String × String × String × String × String) := [\n")
+	for i, w := range writes {
+		sep := ","
+		if i == len(writes)-1 {
+			sep = ""
+		}
+		fmt.Fprintf(&sb, "  (%s, %s, %s, %s, %s)%s\n", leanStr(w.fn), leanStr(w.field), leanStr(w.rhs), leanStr(w.kind), leanStr(w.ctx), sep)
+	}
+	sb.WriteString("]\n\n/-- the return statements of the three reducers with their guard stacks, in source order -/\n")
+	sb.WriteString("def reducerReturns : List String := [\n")
+	for i, r := range rets {
+		sep := ","
+		if i == len(rets)-1 {
+			sep = ""
+		}
+		fmt.Fprintf(&sb, "  %s%s\n", leanStr(r), sep)
+	}
+	sb.WriteString("]\n\n")
 	dump := func(name string, m map[string]string) {
 		keys := make([]string, 0, len(m))
 		for k := range m {
